@@ -253,8 +253,12 @@ def graph_search(run, rnd, dates, n_pops, n_alt=5):
             pairs = [(u, v) for u in flow_inputs for v in UNITS if v != u]
             ok, r1 = run.attempt("default targets", popgen.simulate, df, date)
             # the first population of a date tries every (unit of the input, unit supplied) pair, the others a sample
-            for u, v in ((pairs if k == 0 else rnd.sample(pairs, min(len(pairs), n_alt))) if ok else []):
-                c, b, a = rnd.choice(flow_inputs[u])
+            trials = [(u, v, rnd.choice(flow_inputs[u])) for u, v in (pairs if k == 0 else rnd.sample(pairs, min(len(pairs), n_alt)))]
+            if k == 0:
+                # … and every flow input once (inputs differ in how they are consumed: by rules, by group sums, by
+                # person-pointer aggregations)
+                trials += [(u, rnd.choice([v for v in UNITS if v != u]), inp) for u in flow_inputs for inp in flow_inputs[u]]
+            for u, v, (c, b, a) in (trials if ok else []):
                 c2 = f"{b}{v}{a}"
                 if c2 in df.columns:
                     continue
